@@ -238,6 +238,26 @@ def f_status( ctx ):
     recs = RM.find( rdb, '_recs = %s[%s:%s]' % ( ATT, BEG, END ))
     if recs is not None:
         res.ok( src, recs, 'a read returns attribute[beg:end]' )
+        # ... all of it: the completion decision ( end == endactual ) speaks about the range [beg:end), so what is shipped is that range - the
+        # local is bound once, never trimmed or re-bound afterwards ( a fragment cut to the byte budget AFTER the range was rounded up to
+        # whole elements is reported complete although its last element was dropped: the transfer ends one element short, silently )
+        RECS = RM.name( '_recs' )
+        again = [ a_ for a_ in ast.walk( rdb ) if isinstance( a_, ( ast.Assign, ast.AugAssign )) and a_ is not recs and any(
+            isinstance( t_, ast.Name ) and t_.id == RECS for tg_ in ( a_.targets if isinstance( a_, ast.Assign ) else [ a_.target ] ) for t_ in ast.walk( tg_ )) ]
+        mut = [ c_ for c_ in ast.walk( rdb ) if isinstance( c_, ast.Call ) and isinstance( c_.func, ast.Attribute ) and dotted( c_.func.value ) == RECS and c_.func.attr in ( 'pop', 'remove', 'clear', 'append', 'extend', 'insert' ) ] \
+            + [ d_ for d_ in ast.walk( rdb ) if isinstance( d_, ast.Delete ) and any( RECS in names_in( t_ ) for t_ in d_.targets ) ]
+        # ( the UDT branch, outside this property, legitimately replaces the records by their trimmed byte rendering )
+        def in_struct_( n_ ):
+            return any( isinstance( a, ast.If ) and 'STRUCT' in txt( a.test ) and any( n_ is y for b in a.body for y in ast.walk( b ))
+                        for a in src.ancestors( n_ ) if any( a is x for x in ast.walk( rdb )))
+        again = [ a_ for a_ in again if not in_struct_( a_ ) ]
+        mut = [ m_ for m_ in mut if not in_struct_( m_ ) ]
+        if again or mut:
+            bad_ = ( again + mut )[0]
+            res.bad( src, bad_, 'Logix.request changes the data of a read after taking attribute[beg:end] ( %s )' % norm_text( bad_ )[:80],
+                     'the status is decided for the range [beg:end): trimmed to the byte budget, the last fragment is sent with status 0x00 although its final element was cut off - the reassembled transfer is one element short' )
+        else:
+            res.ok( src, recs, 'the data shipped is the whole range the completion status refers to ( %s is bound once )' % RECS )
     else:
         res.bad( src, rdb, 'read data', 'the data returned must be exactly attribute[beg:end]' )
     # status store of the read branch
@@ -399,6 +419,26 @@ def f_client( ctx ):
             else:
                 bad = True
                 res.bad( src, s, '%s: %s' % ( qn, norm_text( s )), 'the request\'s element count must be the caller\'s `elements` (or the count spelled in the path): deriving it from the data of ONE fragment makes every Write Tag Fragmented tile at a non-zero offset invalid (elements < offset/size + len( data )) - only the first tile is stored' )
+        # ... and a fragment is not refused for carrying fewer elements than the range: every refusal ( assert / if..raise ) that sits on the
+        # way to the fragmented request is evaluated for a legitimate tile - 3 elements of a 10 element range at a non-zero byte offset
+        if qn == 'client.write':
+            tile = dict( elements=10, data=( 0, 0, 0 ), offset=8, tag_type=0xC3 )
+            plain = [ i for i in walk_no_nested( fn ) if isinstance( i, ast.If ) and pmatch( i.test, 'offset is None' ) is not None ]
+            def in_plain_( n_ ):
+                return any( n_ is y for i in plain for b in i.body for y in ast.walk( b ))
+            refusals = [ ( a_, a_.test, False ) for a_ in walk_no_nested( fn ) if isinstance( a_, ast.Assert ) ] \
+                     + [ ( i_, i_.test, True ) for i_ in walk_no_nested( fn ) if isinstance( i_, ast.If ) and any( isinstance( b_, ast.Raise ) for b_ in i_.body ) ]
+            hit = False
+            for n_, t_, sense in refusals:
+                if in_plain_( n_ ):
+                    continue
+                v = try_fold( t_, tile, default=None )
+                if v is not None and bool( v ) == sense:
+                    hit = bad = True
+                    res.bad( src, n_, '%s refuses a tile of a larger range ( %s )' % ( qn, norm_text( t_ )[:60] ),
+                             'for Write Tag Fragmented `elements` is the size of the whole range while `data` holds one fragment: a client that insists on elements == len( data ) can only ever send whole-range writes, a range tiled by several requests is never stored' )
+            if not hit:
+                res.ok( src, fn, '%s: no refusal on the way to the fragmented request rejects a tile ( 3 of 10 elements at byte offset 8 )' % qn )
         # the request carries exactly those locals
         used = [ d for d in ast.walk( fn ) if isinstance( d, ast.Dict ) and any( try_fold( k ) == 'elements' for k in d.keys ) ]
         for d in used:
